@@ -392,6 +392,18 @@ def cases(tier, seed):
     return C.roundrobin(_cases_values(tier), _cases_keys(tier), _cases_both(tier), weights=(4, 2, 1))
 
 
+def extra_cases(tier, seed):
+    """designed cases, run before the enumeration: chunked keys AND chunked values whose chunk boundaries coincide (two columns of one multi-row-group table) or not, with the
+    nulls of the value column confined to a LATER chunk (so the chunks convert to different NumPy dtypes on their own: a null-free integer chunk stays integer, a chunk with nulls
+    does not) and a group whose values are all null - for every nullable value class"""
+    keys = [0, 1, 0, 1, 2, 2]; pats = ([False, False, False, False, True, True], [False, True, False, True, True, False])
+    for vcls in ("int64", "int32", "float64", "bool", "dt[ns]", "td[ms]", "uint8"):
+        for pat in pats:
+            vs = [{"kcont": "pa.ChunkedArray", "klayout": kl, "vcont": "pa.ChunkedArray", "vlayout": vl} for kl, vl in (([4, 2], [4, 2]), ([2, 2, 2], [2, 2, 2]), ([4, 2], [3, 3]), ([3, 3], [4, 2]), ([6], [4, 2]))]
+            yield {"side": "both", "keys": keys, "kcls": "int64", "vcls": vcls, "nullpat": list(pat), "variants": vs}
+            yield {"side": "both", "keys": keys, "kcls": "str", "vcls": vcls, "nullpat": list(pat), "variants": vs[:2]}
+
+
 def random_case(rnd, tier):
     n = rnd.randint(4, 40 if tier == "thorough" else 12)
     keys = [rnd.choice([None, 0, 1, 2, 2]) for _ in range(n)]; pat = [rnd.random() < 0.3 for _ in range(n)]
